@@ -338,7 +338,7 @@ func genValidPattern() *rapid.Generator[string] {
 			case k <= 4:
 				toks[i] = lit.Draw(t, "lit")
 			case k <= 6:
-				name := rapid.SampledFrom([]string{"id", "a", "b", "x$", "long-name_1", "k"}).Draw(t, "pname")
+				name := rapid.SampledFrom([]string{"id", "a", "b", "x$", "long-name_1", "k", "ID", "A", "Id", "$id"}).Draw(t, "pname") // (some differ in letter case only; one begins with the marker)
 				// (one pattern in ten may name a placeholder twice: valid as a pattern, a
 				// conflict only at registration)
 				for used[name] && rapid.IntRange(0, 9).Draw(t, "dupok") != 0 {
@@ -465,7 +465,7 @@ func TestPropReplaceTags(t *testing.T) {
 				names = append(names, tk[1:])
 			}
 		}
-		names = append(names, "zz", "i", "a$")
+		names = append(names, "zz", "i", "a$", "iD", "B")
 		m := map[string]string{}
 		n := rapid.IntRange(0, 3).Draw(t, "nmap")
 		for i := 0; i < n; i++ {
@@ -500,12 +500,17 @@ func TestPropIDTransformer(t *testing.T) {
 		n := rapid.IntRange(1, 5).Draw(t, "ntok")
 		toks := make([]string, n)
 		tagAt := rapid.IntRange(0, n-1).Draw(t, "tagAt")
+		twin := false
 		for i := range toks {
 			switch {
 			case i == tagAt:
-				toks[i] = "$" + rapid.SampledFrom([]string{"id", "bookId", "a", "k$"}).Draw(t, "tag")
+				toks[i] = "$" + rapid.SampledFrom([]string{"id", "bookId", "a", "k$", "$id"}).Draw(t, "tag")
 			case rapid.IntRange(0, 4).Draw(t, "other") == 0:
 				toks[i] = "$o" + strconv.Itoa(i)
+				if !twin && rapid.Bool().Draw(t, "casetwin") {
+					toks[i] = "$ID" // differs from the tag "id" in letter case only
+					twin = true
+				}
 			default:
 				toks[i] = rapid.SampledFrom([]string{"library", "book", "a", "b$", "x-y"}).Draw(t, "lit")
 			}
